@@ -65,6 +65,12 @@ func blockTx(tx *pb.BxhTransaction, m *txMeta) pb.Transaction {
 
 type pairT struct{ src, dst *mService }
 
+type histEntry struct {
+	txs   []*pb.BxhTransaction
+	metas []*txMeta
+	ref   *blockResult
+}
+
 type scn struct {
 	prop                            string
 	res                             *sim.Result
@@ -104,6 +110,7 @@ type scn struct {
 	relaySet                        map[int]bool      // validator indexes in the trust root currently stored for the other BitXHub (observed)
 	relayN                          int
 	icCum                           uint64      // C09: interchain transactions counted over all blocks (incl. the prologue)
+	hist                            map[uint64]*histEntry // per height: what the reference computed (kept only when a replica lags, Policy.Burst)
 	prevRefDump                     [][2]string // state store of the reference replica after the previous block (only kept when there are other replicas)
 }
 
@@ -195,6 +202,11 @@ func Execute(prop string, p *sim.Plan, keep bool) (res *sim.Result) {
 	}
 	if !s.fatal && res.Aborted == "" {
 		s.flush()
+	}
+	for _, r := range s.reps {
+		if !s.fatal && res.Aborted == "" {
+			s.drain(r)
+		}
 	}
 	return s.finish()
 }
@@ -650,7 +662,7 @@ func (s *scn) flush() *blockResult {
 	s.pend, s.pendM = nil, nil
 	s.logf("block %d txs=%d", h, len(txs))
 	var results []*blockResult
-	if !s.inSetup && len(s.reps) == 1 {
+	if !s.inSetup {
 		for _, at := range s.cfg.RefRestart {
 			if at == s.blockNo {
 				if err := s.reps[0].restart(); err != nil {
@@ -666,6 +678,9 @@ func (s *scn) flush() *blockResult {
 		if !s.inSetup {
 			for _, at := range r.pol.RestartAt {
 				if at == s.blockNo {
+					if !s.drain(r) {
+						return nil
+					}
 					if err := r.restart(); err != nil {
 						s.vio("C01", "restart-failed", "", "replica %d cannot reopen its ledger after a clean stop at height %d: %v", r.id, r.height, err)
 						s.res.Aborted = "restart failed: " + err.Error()
@@ -677,6 +692,11 @@ func (s *scn) flush() *blockResult {
 		}
 		var br *blockResult
 		var err error
+		if r.pol.Burst > 1 && !s.inSetup && r.id > 0 {
+			r.backlog = append(r.backlog, ev)
+			results = append(results, nil)
+			continue
+		}
 		if r.pol.Compete > 0 && !s.inSetup && len(txs) > 0 && sim.NewRand(uint64(h)*0x2545f4914f6cdd1d+uint64(r.id)*31+uint64(len(txs))).Chance(float64(r.pol.Compete)/1000) {
 			// the head is replaced: a competing block of this height is executed first, then the real one arrives
 			if _, err := r.execute(competingBlock(ev, int(h)%len(txs)), 12*time.Second); err != nil {
@@ -803,6 +823,19 @@ func (s *scn) flush() *blockResult {
 	if len(s.reps) > 1 {
 		s.prevRefDump = s.reps[0].stateDump()
 	}
+	for _, r := range s.reps {
+		if r.pol.Burst > 1 && !s.inSetup && r.id > 0 {
+			if s.hist == nil {
+				s.hist = map[uint64]*histEntry{}
+			}
+			s.hist[h] = &histEntry{txs: txs, metas: metas, ref: ref}
+			if len(r.backlog) >= r.pol.Burst {
+				if !s.drain(r) {
+					return nil
+				}
+			}
+		}
+	}
 	if s.cfg.RuleOps && !s.inSetup {
 		s.observeMasterRules(h) // before the verdicts: proofs judged in a block that changed the master rule get none
 	}
@@ -867,69 +900,168 @@ func (s *scn) compareReplicas(h uint64, results []*blockResult) {
 	if len(results) < 2 {
 		return
 	}
-	ref := results[0]
 	refDump := s.reps[0].stateDump()
 	for i := 1; i < len(results); i++ {
-		o := results[i]
-		where := fmt.Sprintf("block %d, replica %d (proof=%s cache=%d restarts=%v) vs replica 0", h, i, s.reps[i].pol.ProofType, s.reps[i].pol.Cache, s.reps[i].pol.RestartAt)
-		switch {
-		case o.Header.StateRoot.String() != ref.Header.StateRoot.String():
-			od := s.reps[i].stateDump()
-			d := sim.DiffDumps(refDump, od)
-			vals := ""
-			if len(d) <= 3 {
-				for _, k := range d {
-					vals += fmt.Sprintf(" [%s: %q vs %q]", trimKeys([]string{k})[0], dumpValue(refDump, k), dumpValue(od, k))
-				}
-			}
-			s.vio("C01", "diverged", "state-root", "%s: state roots differ (%s vs %s); differing state keys: %q%s", where, ref.Header.StateRoot.String()[:14], o.Header.StateRoot.String()[:14], trimKeys(d), vals)
-		case o.Header.TxRoot.String() != ref.Header.TxRoot.String():
-			s.vio("C01", "diverged", "tx-root", "%s: transaction roots differ", where)
-		case o.Header.ReceiptRoot.String() != ref.Header.ReceiptRoot.String():
-			s.vio("C01", "diverged", "receipt-root", "%s: receipt roots differ", where)
-		case o.Header.TimeoutRoot.String() != ref.Header.TimeoutRoot.String():
-			s.vio("C01", "diverged", "timeout-root", "%s: timeout roots differ", where)
-		case o.Hash != ref.Hash:
-			s.vio("C01", "diverged", "block-hash", "%s: block hashes differ (%s vs %s)", where, ref.Hash[:14], o.Hash[:14])
+		if results[i] == nil {
+			continue // a lagging replica (Policy.Burst): compared when it is handed its backlog
 		}
-		for j := range ref.Receipts {
-			if j < len(o.Receipts) && !bytes.Equal(receiptBytes(ref.Receipts[j]), receiptBytes(o.Receipts[j])) {
-				s.vio("C01", "diverged", "receipt", "%s: receipt %d differs: %q vs %q", where, j, ref.Receipts[j].Ret, o.Receipts[j].Ret)
-				break
-			}
-		}
-		if !bytes.Equal(metaBytes(ref.Meta), metaBytes(o.Meta)) {
-			s.vio("C01", "diverged", "delivery-meta", "%s: per-block delivery metadata differs:\n  %s\n  %s", where, metaString(ref.Meta), metaString(o.Meta))
-		}
-		if od := s.reps[i].stateDump(); len(sim.DiffDumps(refDump, od)) > 0 {
-			d := sim.DiffDumps(refDump, od)
-			vals := ""
-			if len(d) <= 3 {
-				for _, k := range d {
-					vals += fmt.Sprintf(" [%s: %q vs %q]", trimKeys([]string{k})[0], dumpValue(refDump, k), dumpValue(od, k))
-				}
-			}
-			discr := "state-content"
-			onlyEmpty := true
-			for _, k := range d {
-				a, b := dumpValue(refDump, k), dumpValue(od, k)
-				if !((a == "<absent>" && b == "") || (a == "" && b == "<absent>")) || strings.HasPrefix(k, "account-") || strings.HasPrefix(k, "code-") {
-					onlyEmpty = false
-				}
-			}
-			if onlyEmpty {
-				// known family (root cause of C13/get/empty-value): whether a storage key that holds an empty value exists in
-				// the database depends on the history (x -> "" is stored, nothing -> "" is not, a rollback restores "" as a
-				// stored empty value); the state root does not see the difference
-				discr = "state-content/storage-key-absent-vs-empty"
-			}
-			s.vio("C01", "diverged", discr, "%s: state stores differ in keys %q%s", where, trimKeys(d), vals)
-		}
+		s.compareOne(h, results[0], results[i], i, refDump, nil)
 		if len(s.res.Violations) > 0 {
 			s.fatal = true
 			return
 		}
 	}
+}
+
+// compareOne: C01 for one block and one replica. refDump == nil: the reference has moved on, the state stores are
+// not compared for this height. skipRc: receipt positions not compared (see drain).
+func (s *scn) compareOne(h uint64, ref, o *blockResult, i int, refDump [][2]string, skipRc map[int]bool) {
+	where := fmt.Sprintf("block %d, replica %d (proof=%s cache=%d restarts=%v) vs replica 0", h, i, s.reps[i].pol.ProofType, s.reps[i].pol.Cache, s.reps[i].pol.RestartAt)
+	if s.reps[i].pol.Burst > 1 {
+		where = fmt.Sprintf("block %d, replica %d (proof=%s, handed %d blocks back to back) vs replica 0 (one block at a time)", h, i, s.reps[i].pol.ProofType, s.reps[i].pol.Burst)
+	}
+	switch {
+	case o.Header.StateRoot.String() != ref.Header.StateRoot.String():
+		vals := ""
+		var d []string
+		if refDump != nil {
+			od := s.reps[i].stateDump()
+			d = sim.DiffDumps(refDump, od)
+			if len(d) <= 3 {
+				for _, k := range d {
+					vals += fmt.Sprintf(" [%s: %q vs %q]", trimKeys([]string{k})[0], dumpValue(refDump, k), dumpValue(od, k))
+				}
+			}
+		}
+		s.vio("C01", "diverged", "state-root", "%s: state roots differ (%s vs %s); differing state keys: %q%s", where, ref.Header.StateRoot.String()[:14], o.Header.StateRoot.String()[:14], trimKeys(d), vals)
+	case o.Header.TxRoot.String() != ref.Header.TxRoot.String():
+		s.vio("C01", "diverged", "tx-root", "%s: transaction roots differ", where)
+	case o.Header.ReceiptRoot.String() != ref.Header.ReceiptRoot.String():
+		s.vio("C01", "diverged", "receipt-root", "%s: receipt roots differ", where)
+	case o.Header.TimeoutRoot.String() != ref.Header.TimeoutRoot.String():
+		s.vio("C01", "diverged", "timeout-root", "%s: timeout roots differ", where)
+	case o.Hash != ref.Hash:
+		s.vio("C01", "diverged", "block-hash", "%s: block hashes differ (%s vs %s)", where, ref.Hash[:14], o.Hash[:14])
+	}
+	for j := range ref.Receipts {
+		if skipRc[j] {
+			continue
+		}
+		if j < len(o.Receipts) && !bytes.Equal(receiptBytes(ref.Receipts[j]), receiptBytes(o.Receipts[j])) {
+			s.vio("C01", "diverged", "receipt", "%s: receipt %d differs: %q vs %q", where, j, ref.Receipts[j].Ret, o.Receipts[j].Ret)
+			break
+		}
+	}
+	if !bytes.Equal(metaBytes(ref.Meta), metaBytes(o.Meta)) {
+		s.vio("C01", "diverged", "delivery-meta", "%s: per-block delivery metadata differs:\n  %s\n  %s", where, metaString(ref.Meta), metaString(o.Meta))
+	}
+	if refDump == nil {
+		return
+	}
+	if od := s.reps[i].stateDump(); len(sim.DiffDumps(refDump, od)) > 0 {
+		d := sim.DiffDumps(refDump, od)
+		vals := ""
+		if len(d) <= 3 {
+			for _, k := range d {
+				vals += fmt.Sprintf(" [%s: %q vs %q]", trimKeys([]string{k})[0], dumpValue(refDump, k), dumpValue(od, k))
+			}
+		}
+		discr := "state-content"
+		onlyEmpty := true
+		for _, k := range d {
+			a, b := dumpValue(refDump, k), dumpValue(od, k)
+			if !((a == "<absent>" && b == "") || (a == "" && b == "<absent>")) || strings.HasPrefix(k, "account-") || strings.HasPrefix(k, "code-") {
+				onlyEmpty = false
+			}
+		}
+		if onlyEmpty {
+			// known family (root cause of C13/get/empty-value): whether a storage key that holds an empty value exists in
+			// the database depends on the history (x -> "" is stored, nothing -> "" is not, a rollback restores "" as a
+			// stored empty value); the state root does not see the difference
+			discr = "state-content/storage-key-absent-vs-empty"
+		}
+		s.vio("C01", "diverged", discr, "%s: state stores differ in keys %q%s", where, trimKeys(d), vals)
+	}
+}
+
+// drain hands a lagging replica (Policy.Burst) its backlog back to back and judges what it computed: C01 against the
+// reference's results for the same heights, and C03 on the replica's own receipts (an IBTP whose proof the harness
+// judged invalid for the rule in force must be refused on this node too). Returns false if the run cannot go on.
+func (s *scn) drain(r *replica) bool {
+	if len(r.backlog) == 0 {
+		return true
+	}
+	evs := r.backlog
+	r.backlog = nil
+	outs, err := r.executeBurst(evs, 12*time.Second)
+	s.res.Count("fault_blocks_back_to_back")
+	s.res.Add("fault_blocks_delivered_back_to_back", int64(len(evs)))
+	if err != nil {
+		if err == errWedged {
+			s.vio("C08", "wedged", "back-to-back", "%d blocks handed back to back to replica %d: no executed event within the watchdog window", len(evs), r.id)
+			s.vio("C03", "wedged", "back-to-back", "%d blocks handed back to back to replica %d: no executed event within the watchdog window", len(evs), r.id)
+			s.fatal = true
+			if len(s.res.Violations) == 0 {
+				s.res.Aborted = "lagging replica wedged"
+			}
+		} else {
+			s.res.Aborted = "execute (burst): " + err.Error()
+		}
+		return false
+	}
+	// a transaction hash that occurs twice in the burst has one stored receipt (the later one): not compared
+	seen := map[string]int{}
+	for _, ev := range evs {
+		for _, tx := range ev.Block.Transactions.Transactions {
+			seen[tx.GetHash().String()]++
+		}
+	}
+	idx := 0
+	for i, rr := range s.reps {
+		if rr == r {
+			idx = i
+		}
+	}
+	for k, o := range outs {
+		he := s.hist[o.Height]
+		if he == nil {
+			s.res.Aborted = fmt.Sprintf("burst: no reference result for height %d", o.Height)
+			return false
+		}
+		skip := map[int]bool{}
+		for j, th := range he.ref.TxHashes {
+			if seen[th.String()] > 1 {
+				skip[j] = true
+			}
+		}
+		var refDump [][2]string
+		if k == len(outs)-1 && o.Height == s.reps[0].height {
+			refDump = s.reps[0].stateDump()
+		}
+		s.logf("  replica %d (back to back) block %d hash=%s", r.id, o.Height, o.Hash[:12])
+		s.compareOne(o.Height, he.ref, o, idx, refDump, skip)
+		for j, tx := range he.txs {
+			mt := he.metas[j]
+			ib := tx.IBTP
+			if ib == nil || j >= len(o.Receipts) || skip[j] || mt.kind == "entry" || ib.Group != nil || s.ibtp.pair(ib.From, ib.To).batch {
+				continue
+			}
+			if o.Receipts[j].Status != pb.Receipt_SUCCESS || mt.proofOK {
+				continue
+			}
+			if s.cfg.RuleOps && mt.judge != nil && mt.judge.ruleAt >= o.Height && mt.judge.ruleAt != 0 {
+				continue // the master rule of the judging chain changed in that very block: no verdict
+			}
+			s.vio("C03", "unverified-ibtp-accepted", proofClass(mt.note)+"/by-a-node-handed-its-blocks-back-to-back", "block %d tx %d: IBTP %s-%s-%d was accepted by replica %d, which was handed blocks %d..%d back to back, although its proof is %s for the rule in force after block %d (the node that executed one block at a time refused it: %q)",
+				o.Height, j, ib.From, ib.To, ib.Index, r.id, outs[0].Height, outs[len(outs)-1].Height, mt.note, o.Height-1, he.ref.Receipts[j].Ret)
+		}
+		delete(s.hist, o.Height)
+		if len(s.res.Violations) > 0 {
+			s.fatal = true
+			return false
+		}
+	}
+	return true
 }
 
 func trimKeys(ks []string) []string {
